@@ -32,7 +32,6 @@ func CreateSavepointArtifact(fs locations.StorageLocation, savepointsPath string
 		if err != nil {
 			return "", err
 		}
-		files = append(files, opCkpt.DkvFileUri) // include checkpoints uri
 
 		for _, file := range files {
 			opID, baseFileName, err := parseDKVURI(file)
@@ -45,6 +44,18 @@ func CreateSavepointArtifact(fs locations.StorageLocation, savepointsPath string
 			if err := fs.Copy(file, dst); err != nil {
 				return "", err
 			}
+		}
+
+		// The checkpoints file is rewritten by the operator on later checkpoints
+		// and retention updates, so store the content that the file list was
+		// taken from rather than copying whatever the file holds by now.
+		opID, baseFileName, err := parseDKVURI(opCkpt.DkvFileUri)
+		if err != nil {
+			return "", fmt.Errorf("parsing uri while creating savepoint: %v", err)
+		}
+		dst := filepath.Join(savepointsPath, pathSegment(snapshot.id), "dkv", opID, baseFileName)
+		if _, err := fs.Write(dst, bytes.NewReader(checkpointsData)); err != nil {
+			return "", err
 		}
 	}
 
